@@ -144,7 +144,7 @@ Cmp(a, b, h) ==
 (* ---- hashability ---- *)
 RECURSIVE Hashable(_, _)
 Hashable(v, h) ==
-    IF v.t \in {"none", "bool", "int", "str", "bi", "range"} THEN TRUE
+    IF v.t \in {"none", "bool", "int", "str", "bi"} THEN TRUE      \* a range is not hashable in this dialect
     ELSE IF v.t = "tuple" THEN \A i \in 1..Len(v.v) : Hashable(v.v[i], h)
     ELSE IF v.t = "struct" THEN \A i \in 1..Len(v.vs) : Hashable(v.vs[i], h)
     ELSE IF v.t = "ref" THEN h[v.a].kind = "fn"
@@ -196,16 +196,26 @@ JoinSeq(parts, sep, i) ==       \* parts: sequence of code point sequences
     ELSE IF i = Len(parts) THEN parts[i]
     ELSE parts[i] \o sep \o JoinSeq(parts, sep, i + 1)
 
-(* repr: strings are quoted with double quotes; only printable ASCII without quote/backslash is
-   inside the specified domain (ReprOk); containers recurse. Cyclic values are outside. *)
+(* repr: strings are quoted with double quotes (this implementation's convention); backslash,
+   double quote, \n \r \t are escaped with a backslash, other control characters and 127..255 as
+   \xhh; code points above 255 are outside the specified domain (ReprOk).  Containers recurse.
+   Cyclic values are outside. *)
 RECURSIVE Repr(_, _, _)
-ReprOk(s) == \A i \in 1..Len(s) : s[i] >= 32 /\ s[i] < 127 /\ s[i] # 34 /\ s[i] # 92
+ReprOk(s) == \A i \in 1..Len(s) : s[i] >= 0 /\ s[i] < 256
+HexLow(d) == IF d < 10 THEN 48 + d ELSE 87 + d
+ReprChar(c) ==
+    IF c = 10 THEN <<92, 110>> ELSE IF c = 13 THEN <<92, 114>> ELSE IF c = 9 THEN <<92, 116>>
+    ELSE IF c = 92 THEN <<92, 92>> ELSE IF c = 34 THEN <<92, 34>>
+    ELSE IF c < 32 \/ c >= 127 THEN <<92, 120, HexLow(c \div 16), HexLow(c % 16)>>
+    ELSE <<c>>
+RECURSIVE ReprChars(_, _)
+ReprChars(s, i) == IF i > Len(s) THEN <<>> ELSE ReprChar(s[i]) \o ReprChars(s, i + 1)
 Repr(v, h, fuel) ==
     IF fuel = 0 THEN <<63>>
     ELSE IF v.t = "none" THEN S_None
     ELSE IF v.t = "bool" THEN (IF v.b THEN S_True ELSE S_False)
     ELSE IF v.t = "int" THEN IntStr(v.v)
-    ELSE IF v.t = "str" THEN <<34>> \o v.s \o <<34>>
+    ELSE IF v.t = "str" THEN <<34>> \o ReprChars(v.s, 1) \o <<34>>
     ELSE IF v.t = "tuple" THEN
         (IF Len(v.v) = 1 THEN <<40>> \o Repr(v.v[1], h, fuel - 1) \o <<44, 41>>
          ELSE <<40>> \o JoinSeq([i \in 1..Len(v.v) |-> Repr(v.v[i], h, fuel - 1)], <<44, 32>>, 1) \o <<41>>)
